@@ -107,6 +107,11 @@ class TerminalPredicate(BaseModel):
     logical_operator: LogicalOperatorEnum
     right_term: Union[float, int, str, tuple, Identifier]
 
+    class Config:
+        # keep each literal's own type: without this the first union member
+        # that can coerce the value wins ("02134" -> 2134.0, 18 -> 18.0)
+        smart_union = True
+
 
 class RecursivePredicate(BaseModel):
     """
